@@ -979,7 +979,8 @@ def oracle_grid(ctx, impl, cases):
                 st["cases"] += 1
                 ctx.branch("oracle:%s:%s" % (c["style"], path))
                 ctx.branch("oracle-codec:%s" % c["codec"])
-                ctx.nontriv((c["data"], c["input_encoding"], path))
+                if c["comment"] or c["input_encoding"] or c["bom"] or not bytes.fromhex(c["data"]).isascii():
+                    ctx.nontriv((c["data"], c["input_encoding"], path))
                 bad = orc.check(c, path)
                 if bad:
                     report(c, path, bad)
